@@ -136,6 +136,12 @@ def instances(params):
         inst.append(("set_known_values", sub))
         inst.append(("set_lower_bounds", sub))
         inst.append(("set_upper_bounds", sub))
+    # "no bound known yet": -inf lower / +inf upper bounds passed to the bulk setters, with and without a coalition list
+    inst.append(("set_lower_bounds_inf", ["all"]))
+    inst.append(("set_upper_bounds_inf", ["all"]))
+    for sub in _subsets(n)[:6]:
+        inst.append(("set_lower_bounds_inf", sub))
+        inst.append(("set_upper_bounds_inf", sub))
     inst.append(("set_known_values", []))
     inst.append(("set_values_duplicate", [2 ** n - 1]))
     inst.append(("copy", []))
@@ -182,6 +188,14 @@ def scenario(pk, params, inp):
                 fn(_arr(pk, x))
             else:
                 fn(_arr(pk, [x[S] for S in arg]), (C(S) for S in arg) if len(arg) == 2 else [C(S) for S in arg])
+        elif op in ("set_lower_bounds_inf", "set_upper_bounds_inf"):
+            import numpy as np
+            fn = g.set_lower_bounds if op == "set_lower_bounds_inf" else g.set_upper_bounds
+            val = float("-inf") if op == "set_lower_bounds_inf" else float("inf")
+            if arg == ["all"]:
+                fn(np.full(2 ** n, val))
+            else:
+                fn(np.full(len(arg), val), [C(S) for S in arg])
         elif op == "copy":
             c = g.copy()
             res["copy_equal"] = _read(pk, c, n)
@@ -269,6 +283,15 @@ def _nan_to_none(v):
     return v
 
 
+def _inf(v):
+    """+1 / -1 for an infinite float or sentinel, 0 otherwise."""
+    try:
+        from symx.values import _inf_sign
+        return _inf_sign(v)
+    except Exception:  # noqa: BLE001
+        return 0
+
+
 def _rows_eq(lg, got, want, tag):
     cl = []
     for S, (g, w) in enumerate(zip(got, want)):
@@ -345,6 +368,20 @@ def claims(params, inp, out, lg):
             for S in targets:
                 if not st[S][0]:
                     want[S][col] = x[S]
+        elif op in ("set_lower_bounds_inf", "set_upper_bounds_inf"):
+            col = 1 if op == "set_lower_bounds_inf" else 2
+            sign = -1 if col == 1 else 1
+            targets = list(range(N)) if arg == ["all"] else list(arg)
+            got = res["table"]
+            for S in range(N):
+                if st[S][0] or S not in targets:
+                    cl += _rows_eq(lg, [got[S]], [st[S]], f"{tag}:known-or-unlisted-row-unaltered:row{S}")
+                else:
+                    v = got[S][col]
+                    isinf = (_inf(v) == sign)
+                    other = 3 - col
+                    cl.append((f"{tag}:infinite-bound-stored:S={S}", lg.And(got[S][0] is False, isinf, lg.eq(got[S][other], st[S][other]))))
+            continue
         elif op == "copy":
             cl += _rows_eq(lg, res["copy_equal"], [st[S] for S in range(N)], f"{tag}:equal")
             cl += _rows_eq(lg, res["orig_after_copy_mutation"], [st[S] for S in range(N)], f"{tag}:orig-independent")
